@@ -30,6 +30,9 @@ type C12Case struct {
 	Set    PSetting  `json:"set"`
 	Before []History `json:"before"` // one or more earlier uses, each followed by Reset
 	After  History   `json:"after"`
+	// ScrubDict: the caller overwrites its dictionary buffer once the earlier stream has been closed
+	// (the constructors only ask that it stay unmodified "until the Writer is closed")
+	ScrubDict bool `json:"scrub_dict,omitempty"`
 }
 
 var errInjected = errors.New("injected destination failure")
@@ -109,6 +112,15 @@ func drawC12(t *rapid.T) C12Case {
 		c.Before = append(c.Before, drawHistory(t, c.Set, fmt.Sprintf("h%d", i), true))
 	}
 	c.After = drawHistory(t, c.Set, "after", false)
+	if c.Set.Ctor == "dict" && c.Set.Dict != nil {
+		c.ScrubDict = rapid.Bool().Draw(t, "scrubdict")
+		if c.ScrubDict && rapid.Bool().Draw(t, "scrubclose") {
+			last := &c.Before[len(c.Before)-1]
+			if n := len(last.Ops); n == 0 || last.Ops[n-1].K != "C" {
+				last.Ops = append(last.Ops, gen.Op{K: "C"})
+			}
+		}
+	}
 	if rapid.IntRange(0, 5).Draw(t, "echo") == 0 {
 		// "echo" mode: a tiny earlier stream (every piece shorter than 16 bytes) and a later stream that
 		// starts with the same bytes and repeats them: anything the match finder remembered from the
@@ -161,10 +173,12 @@ func checkC12(c C12Case) (labels []string, nontrivial bool, err error) {
 	// the used Writer
 	var used anyWriter
 	wrote1 := 0
+	callerDict := c.Set.dictBytes()
+	lastClosed := false
 	for i, h := range c.Before {
 		sink := &iox.Sink{FailAt: h.FailAt, Short: h.Short, FailErr: errInjected, Sticky: true}
 		if i == 0 {
-			used, err = newAnyWriter(sink, c.Set)
+			used, err = newAnyWriterDict(sink, c.Set, callerDict)
 			if err != nil {
 				return nil, false, err
 			}
@@ -194,6 +208,7 @@ func checkC12(c C12Case) (labels []string, nontrivial bool, err error) {
 				wrote1 += r.N
 			}
 		}
+		lastClosed = closed && !failed
 		if failed {
 			labels = append(labels, "before:ended-in-error")
 		}
@@ -208,6 +223,12 @@ func checkC12(c C12Case) (labels []string, nontrivial bool, err error) {
 		if flushed && !closed {
 			labels = append(labels, "before:flushed-then-abandoned")
 		}
+	}
+	if c.ScrubDict && lastClosed && len(callerDict) > 0 {
+		for i := range callerDict {
+			callerDict[i] = 0xEE
+		}
+		labels = append(labels, "dictionary-buffer-overwritten-after-close")
 	}
 	h2 := c.After
 	data2 := h2.Data.Bytes()
